@@ -26,6 +26,16 @@ class DataModelSpace(data_algebra.data_space.DataSpace):
         self.data_map = dict()
         self.n_tmp = 0
 
+    def _fresh_temp_key(self) -> str:
+        """
+        Pick the next automatic key da_temp_<n> that is not already a key of this space.
+        """
+        while True:
+            self.n_tmp = self.n_tmp + 1
+            key = f"da_temp_{self.n_tmp}"
+            if key not in self.data_map.keys():
+                return key
+
     def insert(
         self, *, key: Optional[str] = None, value, allow_overwrite: bool = True
     ) -> data_algebra.data_ops.TableDescription:
@@ -38,8 +48,7 @@ class DataModelSpace(data_algebra.data_space.DataSpace):
         :return: table description
         """
         if key is None:
-            self.n_tmp = self.n_tmp + 1
-            key = f"da_temp_{self.n_tmp}"
+            key = self._fresh_temp_key()
         assert isinstance(key, str)
         assert isinstance(allow_overwrite, bool)
         assert self.data_model.is_appropriate_data_instance(value)
@@ -90,8 +99,7 @@ class DataModelSpace(data_algebra.data_space.DataSpace):
         :return: data key
         """
         if key is None:
-            self.n_tmp = self.n_tmp + 1
-            key = f"da_temp_{self.n_tmp}"
+            key = self._fresh_temp_key()
         assert isinstance(key, str)
         assert isinstance(allow_overwrite, bool)
         if not allow_overwrite:
